@@ -66,10 +66,10 @@ func c19Check(res *report.Result, v variant, w *world, hist []string) {
 	viol := func(site, clause, field, detail string) {
 		res.Violate("C19", fmt.Sprintf("C19:%s:%s/%s", clause, site, field), where+": "+detail, rp)
 	}
-	pair := func(site string, orig *channel.StateMachine, clone interface{}, cs channel.Source, sameType bool) {
+	pair := func(site string, orig interface{}, os channel.Source, clone interface{}, cs channel.Source, sameType bool) {
 		res.Count("c19_clone_checks", 1)
 		// (1) equal
-		if a, b := view(orig), view(cs); a != b {
+		if a, b := view(os), view(cs); a != b {
 			viol(site, "clone-not-equal", "source-view", "phase/index/parameters/transactions of the copy differ from the machine: "+diffAt(a, b))
 		}
 		if sameType {
@@ -78,7 +78,7 @@ func c19Check(res *report.Result, v variant, w *world, hist []string) {
 			}
 		}
 		// (2) + (3)
-		fs, st := walk.CheckDisjoint(orig, clone, snapOf(orig, orig), snapOf(clone, cs))
+		fs, st := walk.CheckDisjoint(orig, clone, snapOf(orig, os), snapOf(clone, cs))
 		for _, f := range fs {
 			viol(site, f.Clause, f.Site, f.Detail)
 		}
@@ -103,9 +103,15 @@ func c19Check(res *report.Result, v variant, w *world, hist []string) {
 		}()
 		f()
 	}
-	guard("machine", func() { c := w.m.Clone(); pair("machine", w.m, c, c, true) })
-	guard("CloneSource", func() { s := persistence.CloneSource(w.m); pair("CloneSource", w.m, s, s, false) })
-	guard("FromSource", func() { s := persistence.FromSource(w.m, nil, nil); pair("FromSource", w.m, s, s, false) })
+	guard("machine", func() { c := w.m.Clone(); pair("machine", w.m, w.m, c, c, true) })
+	guard("CloneSource", func() { s := persistence.CloneSource(w.m); pair("CloneSource", w.m, w.m, s, s, false) })
+	guard("FromSource", func() { s := persistence.FromSource(w.m, nil, nil); pair("FromSource", w.m, w.m, s, s, false) })
+	// a snapshot of a snapshot (what a restored channel is): the source is a *persistence.Channel
+	guard("CloneSource(Channel)", func() {
+		ch := persistence.FromSource(w.m, nil, nil)
+		s := persistence.CloneSource(ch)
+		pair("CloneSource(Channel)", ch, ch, s, s, false)
+	})
 	res.Count("c19_machine_states", 1)
 }
 
